@@ -192,6 +192,12 @@ def run(ctx):
     ctx.coq_file(os.path.join(C.COQ, "props", "C05.v"))
     bad = C.hygiene()
     ctx.obligation("hygiene: no Admitted/Axiom/Parameter/... in coq/", not bad, "; ".join(bad))
+    if not quick:
+        # independent re-check of the compiled theorems and everything they depend on
+        rc, o = C.run(["coqchk", "-o", "-silent", "-Q", os.path.join(C.COQ, "theories"), "Pq", "C05.vo"],
+                      cwd=os.path.join(C.COQ, "props"), timeout=1200)
+        ctx.obligation("coqchk -o props/C05.vo: checked, Axioms: <none>", rc == 0 and "Axioms: <none>" in o, o[-1500:])
+        ctx.checker_cmds.append("coqchk -o -silent -Q coq/theories Pq coq/props/C05.vo")
     # -------- tie 1: translate api.py, re-prove the leaf theorems on the regenerated text
     sys.path.insert(0, os.path.join(C.VERIF, "translators"))
     import py2coq
@@ -208,8 +214,10 @@ def run(ctx):
         if not ok:
             raise py2coq.Unsupported("generated text does not type-check: " + out[-600:])
         committed = open(os.path.join(C.COQ, "theories", "Impl", "FilterLeaf.v")).read()
+        import re
+        strip = lambda t: re.sub(r"\(\* api\.py:\d+ \*\)\n", "", t)       # source line numbers move with unrelated edits
         ctx.extra["translator"] = {"status": "ok", "functions": FUNCS,
-                                   "regenerated_equals_committed_copy": committed.endswith(text)}
+                                   "regenerated_equals_committed_copy": strip(committed).endswith(strip(text))}
         proofs = os.path.join(ctx.gen_dir, "GenFilterProofs.v")
         shutil.copy(os.path.join(C.COQ, "genproofs", "GenFilterProofs.v"), proofs)
         ctx.coq_file(proofs, extra_q=[(ctx.gen_dir, "PqGen")],
